@@ -177,6 +177,8 @@ def witness_tables():
         ("param_bounded_param", "subtypes", bt, Qux.new([Node.new([tp.WildCardType(Wrap, tp.Covariant)]), Leaf]),
          [Qux, Node, Wrap, Leaf, kt.String],
          lambda rs: any(kind(r) == "p" and r.name == "Qux" and r.type_args[0] == Leaf for r in rs)),
+        ("type_variable_bound_chain", "irrelevant", bt, tp.TypeParameter("Z", bound=tp.TypeParameter("V", bound=kt.Double)),
+         [kt.Double, kt.String, Foo], lambda r: r == kt.Double),
         ("nested_contravariant_projection", "subtypes", bt,
          Box.new([tp.WildCardType(Box.new([tp.WildCardType(Foo, tp.Contravariant)]), tp.Contravariant)]),
          [Box, Foo, Baz, kt.String],
@@ -314,8 +316,8 @@ def check(run):
         run.assumptions.append("the tree implements the repaired find_irrelevant_type; switch Heph.Find.Variant.current to "
                                ".repaired")
     witnesses(run)
-    synthetic(run, 30 if quick else 600, 40 if quick else 60)
-    generator_stream(run, 12 if quick else 160)
+    synthetic(run, 30 if quick else 320, 40 if quick else 60)
+    generator_stream(run, 12 if quick else 96)
     if not proofs_ok and not run.violations:
         run.violation({"kind": "broken-proof", "obligations": run.broken}, signature="proof", no_input=True)
 
